@@ -573,6 +573,11 @@ func c19Doc(ctx *core.Ctx, r *gen.Rng, yang string, m *meta.Module, root *tree.S
 				panic("c19: the harness serialiser wrote something the oracle rejects: " + b.String())
 			}
 			pt, pd := c19ReadBack(m, root, e, b.String())
+			if pt == back {
+				pt = "None" // the same tree as read back from the written document
+			} else {
+				pt = emit.Some(pt)
+			}
 			perms = append(perms, emit.Pair(px2.term(), pt))
 			permDescs = append(permDescs, map[string]string{"document": b.String(), "read_back": pd})
 		}
@@ -688,12 +693,12 @@ func c19Escapes(ctx *core.Ctx, r *gen.Rng, n int) {
 // C19: XML export and import are inverse on every data tree.
 func C19(ctx *core.Ctx) error {
 	ctx.Imports = "Val.Model Tree.Schema Tree.Editor Tree.XmlEsc Tree.XmlW Tree.XmlR Check.C19Check"
-	ctx.Rule = "CDoc = generated schema (containers, keyed lists, leaf-lists, 12 leaf types, defaults; one in four with choices, also nested in cases) or the hand-written pair of modules (uses + augment across two namespaces, binary/empty/leafref/int8/boolean) x conforming data whose strings carry markup characters, quotes, ]]>, every white-space class at the edges and inside, non-ASCII (and, rarely, characters XML cannot carry) x selection (module, container, list, list entry) x writer configuration (WriteXMLDoc, WriteXML, XMLWtr{EnumAsIds}) x 2 (XMLWtr2) or 1 (streaming writer) random sibling interleavings of the written document read back; CEsc/CUnesc = random byte strings through patch/xml EscapeText and the decoder; distinct by SHA-256 of the case term; non-trivial = the selection holds data / the text is non-empty"
+	ctx.Rule = "CDoc = generated schema (containers, keyed lists, leaf-lists, 12 leaf types, defaults; one in four with choices, also nested in cases) or the hand-written pair of modules (uses + augment across two namespaces, binary/empty/leafref/int8/boolean) x conforming data whose strings carry markup characters, quotes, ]]>, every white-space class at the edges and inside, non-ASCII (and, rarely, characters XML cannot carry) x selection (module, container, list, list entry) x writer configuration (WriteXMLDoc, WriteXML, XMLWtr{EnumAsIds}) x 1-2 random sibling interleavings of the written document read back; CEsc/CUnesc = random byte strings through patch/xml EscapeText and the decoder; distinct by SHA-256 of the case term; non-trivial = the selection holds data / the text is non-empty"
 	ctx.ShardMax = 160000
 	r := gen.New(ctx.Seed)
-	nTrees := ctx.Scale(200, 3000)
+	nTrees := ctx.Scale(200, 1500)
 	if ctx.Tier == "search" {
-		nTrees = 4000
+		nTrees = 3000
 	}
 	opts := tree.GenOpts{MaxDepth: 3, MaxKids: 5, Lists: true, Defaults: true, LeafLists: true}
 	for n := 0; n < nTrees; n++ {
@@ -743,7 +748,11 @@ func C19(ctx *core.Ctx) error {
 			cfgs = []int{0, 2}
 		}
 		for i, cfg := range cfgs {
-			c19Doc(ctx, tr.Fork(uint64(100+cfg)), yang, m, root, data, e, cfg, 2-i)
+			nperm := 1
+			if i == 0 && n%3 == 0 {
+				nperm = 2
+			}
+			c19Doc(ctx, tr.Fork(uint64(100+cfg)), yang, m, root, data, e, cfg, nperm)
 		}
 	}
 	c19Escapes(ctx, r.Fork(99999), ctx.Scale(150, 3000))
